@@ -98,4 +98,7 @@ m = {
  "not_applicable": [{"property_id": i, "reason": NA[i]} for i in ids if i not in CLAIMED],
 }
 json.dump(m, open('/verif/MANIFEST.json','w'), indent=1)
+# the same notes travel with every evidence file (read by mlrvc when it writes evidence/Cxx.json)
+nd = {pid: ["NOT DECIDED / ASSUMED (" + pid + "): " + part.strip() for part in CLAIMED[pid]["note"].replace("Not decided:", "|Not decided:").replace("Assumed:", "|Assumed:").replace("Trusted:", "|Trusted:").replace("Not under contract:", "|Not under contract:").split("|") if part.strip()] for pid in CLAIMED}
+json.dump(nd, open('/verif/not_decided.json','w'), indent=1)
 print("claimed:", sorted(CLAIMED))
